@@ -285,6 +285,7 @@ func (e *integEngine) checkC13(x *integExpect) {
 			}
 			if known && ok {
 				c.Violate("C13", "timeout-not-reported", "task %s: %s overran the timeout but the task reports success", t.Name, o.Info.Key)
+				c.Violate("C07", "timeout-reported-as-success", "task %s: %s was killed by the task timeout (the task failed) but the run reports success", t.Name, o.Info.Key)
 			}
 			if o.Info.Block == "cmd" && !rt.Errored {
 				c.Violate("C13", "timeout-not-errored", "task %s: command %s overran the timeout (allow_failure=%v) but the task is not marked errored", t.Name, o.Info.Key, t.Allow)
